@@ -13,8 +13,9 @@ from tools.props import panel_common as pc
 from tools.translate import pyx
 
 TRUSTED = pc.TRUSTED_T + [
-    'Panel.calc_kM glue (which sign of the offset is handed to the kernel) is covered by the oracle comparison and '
-    'the frequency-invariance predicate on explored panels only',
+    'Panel.calc_kM glue (which sign of the offset is handed to the kernel): hand model lean/CompmechVerif/Model/PanelGlue.lean (theorems calc_kM_dispatch: '
+    'd = -offset for every model; calc_kM_eq_kinetic_hessian_plate), tied to the running _panel.py by the recorded-kernel-call correspondence of ./check C02 '
+    '(tools/props/C02.py: glue_correspondence), and covered here by the oracle comparison and the frequency-invariance predicate, on explored panels only',
     'LAPACK eigh for the frequency-invariance predicate',
 ]
 ASSUMPTIONS = ['entry theorems are per integration cell; summation/placement checked numerically (V)',
